@@ -73,9 +73,17 @@ def r1(model, rep):
     rep.instance("R1", "components._get_warns loops over all quantities", where, ok)
     # accumulator
     accs = {n.target.id for n in ast.walk(loop) if isinstance(n, ast.AugAssign) and isinstance(n.target, ast.Name)}
+    accs |= {n.func.value.id for n in ast.walk(loop) if isinstance(n, ast.Call) and isinstance(n.func, ast.Attribute) and n.func.attr == "append" and isinstance(n.func.value, ast.Name)}
     if len(accs) != 1:
         raise AnalysisError("_get_warns: warning accumulator not found")
     acc = accs.pop()
+    # the accumulator is a text ("" + key + " ") or a list of keys joined at the end
+    inits = [x_.value for x_ in fn.body if isinstance(x_, ast.Assign) and len(x_.targets) == 1 and isinstance(x_.targets[0], ast.Name) and x_.targets[0].id == acc]
+    as_list = bool(inits) and isinstance(inits[0], ast.List) and not inits[0].elts
+    if not inits or not (as_list or (isinstance(inits[0], ast.Constant) and inits[0].value == "")):
+        raise AnalysisError("_get_warns: the warning accumulator does not start empty")
+    from ..summ import ListV
+    acc0 = ListV([]) if as_list else ""
     for mode in ("tp", "other"):
         key = "tp" if mode == "tp" else Sym(("name", "KEY"))
         c0 = Ctx()
@@ -83,7 +91,7 @@ def r1(model, rep):
             for pair in (("tp", Sym(("name", "KEY"))), (Sym(("name", "KEY")), "tp")):
                 c0.known[("EQ",) + pair] = False
         sm = Summarizer(WarnHooks(model), c0)
-        env = {LIM: Sym(("name", "limits")), CHK: Sym(("name", "checks")), loop.target.id: key, acc: ""}
+        env = {LIM: Sym(("name", "limits")), CHK: Sym(("name", "checks")), loop.target.id: key, acc: acc0}
         leaves = sm.summarize_block(loop.body, env)
         x = fr(Sym(("sub", Sym(("name", "checks")), vkey(key))))
         bad = None
@@ -106,7 +114,7 @@ def r1(model, rep):
                 want = Or(f_pos(x - hi, ctx), f_pos(lo - x, ctx))
             else:
                 want = Or(f_pos(abs_(x) - abs_(hi), ctx), f_pos(abs_(lo) - abs_(x), ctx))
-            flagged = lf.env.get(acc) != ""
+            flagged = vkey(lf.env.get(acc)) != vkey(acc0)
             rest = And(*[g for g in lf.guards if not (atoms_of(g) and all(a[0] == "IN" for a in atoms_of(g)))])
             atoms = sorted(atoms_of(rest) | atoms_of(want), key=repr)
             for bits in itertools.product((False, True), repeat=len(atoms)):
@@ -116,7 +124,8 @@ def r1(model, rep):
                 nrows += 1
                 if ev(want, al) != flagged:
                     bad = (show_f(rest), show_f(want), flagged)
-            if flagged and mode == "tp" and lf.env.get(acc) != "tp ":
+            got_acc = lf.env.get(acc)
+            if flagged and mode == "tp" and not (got_acc == "tp " or (as_list and isinstance(got_acc, ListV) and [vkey(i_) for i_ in got_acc.items] == [vkey("tp")])):
                 bad = ("appended text %r" % (lf.env.get(acc),), "'tp '", flagged)
         ok = bad is None
         if not ok:
@@ -127,7 +136,7 @@ def r1(model, rep):
             raise AnalysisError("_get_warns: no row analysed")
     # returns the accumulated text
     rets = [n for n in ast.walk(fn) if isinstance(n, ast.Return)]
-    ok = len(rets) == 1 and ast.unparse(rets[0].value) in ("%s.strip()" % acc, acc)
+    ok = len(rets) == 1 and (ast.unparse(rets[0].value) in ("%s.strip()" % acc, acc) if not as_list else ast.unparse(rets[0].value) in ("' '.join(%s)" % acc, '" ".join(%s)' % acc))
     if not ok:
         rep.violation("R1", "components._get_warns", where, "the accumulated warning text is not what is returned", "return")
     rep.instance("R1", "components._get_warns returns the accumulated text", where, ok)
